@@ -2,6 +2,8 @@ import Req.Driver.Proto
 import Req.H1.Response
 import Req.H1.Conn
 import Req.H1.ErrClass
+import Req.H1.BufAlias
+import Req.H1.AliasMime
 /-! Driver lanes of C04 (also used by C03).
 
 `c04parse <H|G> <B> <hex stream>` → canonical rendering of `parseResponse`.
@@ -199,7 +201,75 @@ def laneCut : List String → String
     | _, _ => "bad-op"
   | _ => "bad-op"
 
+/-- `c04alias <B> <segments>` (round 5): `readContinuedLineSlice` called until the blank line or
+the first error on a `bufio.Reader` of size `B` whose connection delivers exactly the given
+segments (comma-joined hex, none empty), then EOF — the explicit-array model
+`Req.H1.BufAlias.aheadLines` with the code's guard (`Buffered() > 1`).  Answer: the lines as the
+returned slices read at return time, how the loop ended, the bytes left unread. -/
+def laneAlias : List String → String
+  | [b, segs] =>
+    match b.toNat?, decodeList segs with
+    | some B, some ss =>
+      if B < 16 then "bad-op" else
+      let src : List BufLine.Chunk := ss.map fun d => ⟨d, none⟩
+      let total := (ss.map List.length).foldl (· + ·) 0
+      let (ls, e, a) := BufAlias.aheadLines B 1 (fun l => l.contains 58) (total + 2) (BufAlias.ARd.init B src)
+      let ending := match e with
+        | .ok _ => "blank"
+        | .invalid => "invalid"
+        | .err (.src .eof) => "err:eof"
+        | .err _ => "err:other"
+      "lines=" ++ encodeList ls ++ " end=" ++ ending ++ " rest=" ++ encodeHex a.rd.bytes
+    | _, _ => "bad-op"
+  | _ => "bad-op"
+
+/-- `c04amime <B> <segments>`: `readMIMEHeader`'s loop over the explicit-array reader
+(`BufAlias.amimeLoop`) on the given segments: `<map> err=<class|-> rest=<hex>`; `n/a` when the
+block starts with a blank (the initial-line check of `readMIMEHeader` is not part of the loop). -/
+def laneAMime : List String → String
+  | [b, segs] =>
+    match b.toNat?, decodeList segs with
+    | some B, some ss =>
+      if B < 16 then "bad-op" else
+      match ss.flatten with
+      | [] => "n/a"
+      | c :: _ =>
+        if isOWS c then "n/a" else
+        let src : List BufLine.Chunk := ss.map fun d => ⟨d, none⟩
+        let total := ss.flatten.length
+        match BufAlias.amimeLoop B (total + 1) [] (BufAlias.ARd.init B src) with
+        | .ok (m, a) => renderMap m ++ " err=- rest=" ++ encodeHex a.rd.bytes
+        | .error e => "err=" ++ renderClass e
+    | _, _ => "bad-op"
+  | _ => "bad-op"
+
+/-- `c04ahead <H|G> <B> <segments>`: `_readResponse`'s head over the explicit-array reader
+(`BufAlias.aparseHead`): `rej:<class>` / `ok <head fields> rest=<hex>` / `n/a` (header block
+starting with a blank). -/
+def laneAHead : List String → String
+  | [meth, b, segs] =>
+    match b.toNat?, decodeList segs with
+    | some B, some ss =>
+      if B < 16 then "bad-op"
+      else if meth != "G" && meth != "H" then "bad-op"
+      else
+        let src : List BufLine.Chunk := ss.map fun d => ⟨d, none⟩
+        match BufAlias.aparseHead B (meth == "H") (BufAlias.ARd.init B src) with
+        | none => "n/a"
+        | some (.error e) => "rej:" ++ renderClass e
+        | some (.ok (m, a)) =>
+          "ok proto=" ++ encodeHex m.sl.proto ++ " status=" ++ encodeHex m.sl.status ++
+          " code=" ++ toString m.sl.code ++ " ver=" ++ toString m.sl.major ++ "." ++ toString m.sl.minor ++
+          " hdr=" ++ renderMap m.header ++ " cl=" ++ toString m.contentLength ++
+          " te=" ++ renderBool m.teChunked ++ " close=" ++ renderBool m.close ++
+          " framing=" ++ renderFraming m.framing ++ " rest=" ++ encodeHex a.rd.bytes
+    | _, _ => "bad-op"
+  | _ => "bad-op"
+
 def lanes : List (String × (List String → String)) := [
+  ("c04alias", laneAlias),
+  ("c04ahead", laneAHead),
+  ("c04amime", laneAMime),
   ("c04parse", laneParse),
   ("c04chunk", laneChunk),
   ("c04mime", laneMime),
